@@ -86,10 +86,11 @@ type regModel struct {
 	lsubs       map[string]bool
 	lbinds      map[string]bool
 	pend        []pendW
+	undisc      map[string]bool // connected, detailed discovery not yet received
 }
 
 func newRegModel() *regModel {
-	m := &regModel{conn: map[string]bool{}, ents: map[string]map[uint]bool{}, data: map[string]int{}, lsubs: map[string]bool{}, lbinds: map[string]bool{}}
+	m := &regModel{conn: map[string]bool{}, ents: map[string]map[uint]bool{}, data: map[string]int{}, lsubs: map[string]bool{}, lbinds: map[string]bool{}, undisc: map[string]bool{}}
 	for _, p := range []string{"A", "B"} {
 		m.conn[p] = true
 		m.ents[p] = map[uint]bool{0: true, 1: true, 2: true}
@@ -198,6 +199,21 @@ func srvAddr(s string, withDev bool) *model.FeatureAddressType {
 	return world.FAddr(d, sv.ent, sv.feat)
 }
 
+// cliAddrMode: "d" own device address, "n" device part omitted, "x" the OTHER peer's device address (a
+// request that names a client feature of another device: it can never denote an entry of the sender).
+func cliAddrMode(p, c, mode string) *model.FeatureAddressType {
+	if mode == "x" {
+		a := cliAddr(p, c, true)
+		other := "dA"
+		if p == "A" {
+			other = "dB"
+		}
+		a.Device = util.Ptr(model.AddressDeviceType(other))
+		return a
+	}
+	return cliAddr(p, c, mode == "d")
+}
+
 func cliAddr(p, c string, withDev bool) *model.FeatureAddressType {
 	cv := clientVar(c)
 	d := ""
@@ -205,6 +221,17 @@ func cliAddr(p, c string, withDev bool) *model.FeatureAddressType {
 		d = "d" + p
 	}
 	return world.FAddr(d, cv.ent, cv.feat)
+}
+
+// cliStr renders a client feature address without its device part: registry entries are listed per peer
+// (by connection), and a remote feature created before the peer's discovery arrived carries no device part.
+func cliStr(a *model.FeatureAddressType) string {
+	if a == nil {
+		return "<nil>"
+	}
+	b := *a
+	b.Device = nil
+	return world.AddrStr(&b)
 }
 
 // dump renders the implementation's registries, trees, data and bookkeeping
@@ -221,13 +248,13 @@ func (rw *regWorld) dump() (impl, ref string) {
 			continue
 		}
 		for _, e := range w.L.SubscriptionManager().Subscriptions(pe.Dev) {
-			is = append(is, fmt.Sprintf("%s:%s>%s", p, world.AddrStr(e.ClientFeature.Address()), world.AddrStr(e.ServerFeature.Address())))
+			is = append(is, fmt.Sprintf("%s:%s>%s", p, cliStr(e.ClientFeature.Address()), world.AddrStr(e.ServerFeature.Address())))
 			k := fmt.Sprint("s", e.Id)
 			dupID = dupID || ids[k]
 			ids[k] = true
 		}
 		for _, e := range w.L.BindingManager().Bindings(pe.Dev) {
-			ib = append(ib, fmt.Sprintf("%s:%s>%s", p, world.AddrStr(e.ClientFeature.Address()), world.AddrStr(e.ServerFeature.Address())))
+			ib = append(ib, fmt.Sprintf("%s:%s>%s", p, cliStr(e.ClientFeature.Address()), world.AddrStr(e.ServerFeature.Address())))
 			k := fmt.Sprint("b", e.Id)
 			dupID = dupID || ids[k]
 			ids[k] = true
@@ -237,10 +264,10 @@ func (rw *regWorld) dump() (impl, ref string) {
 	sort.Strings(ib)
 	var ms, mb []string
 	for _, e := range m.subs {
-		ms = append(ms, fmt.Sprintf("%s:%s>%s", e.peer, world.AddrStr(cliAddr(e.peer, e.c, true)), world.AddrStr(srvAddr(e.s, true))))
+		ms = append(ms, fmt.Sprintf("%s:%s>%s", e.peer, cliStr(cliAddr(e.peer, e.c, true)), world.AddrStr(srvAddr(e.s, true))))
 	}
 	for _, e := range m.binds {
-		mb = append(mb, fmt.Sprintf("%s:%s>%s", e.peer, world.AddrStr(cliAddr(e.peer, e.c, true)), world.AddrStr(srvAddr(e.s, true))))
+		mb = append(mb, fmt.Sprintf("%s:%s>%s", e.peer, cliStr(cliAddr(e.peer, e.c, true)), world.AddrStr(srvAddr(e.s, true))))
 	}
 	sort.Strings(ms)
 	sort.Strings(mb)
@@ -249,7 +276,8 @@ func (rw *regWorld) dump() (impl, ref string) {
 	for _, p := range peers {
 		d := w.L.RemoteDeviceForSki(p)
 		byAddr := w.L.RemoteDeviceForAddress(model.AddressDeviceType("d" + p))
-		if (d == nil) != (byAddr == nil) {
+		// (a peer whose discovery has not arrived has no known address yet)
+		if (d == nil) != (byAddr == nil) && !m.undisc[p] {
 			ic = append(ic, p+":ski/address resolution disagree")
 		}
 		if d != nil {
@@ -478,13 +506,14 @@ func (rw *regWorld) apply(op string, judge bool) (viol []string, digest string, 
 				expEv[fmt.Sprint(evT, api.ElementChangeAdd)]++
 			}
 		} else {
-			withDev := f[4] == "d"
+			withDev := f[4] != "n"
 			if isBind {
-				d = pe.UnbindCall(cliAddr(p, c, withDev), srvAddr(s, withDev))
+				d = pe.UnbindCall(cliAddrMode(p, c, f[4]), srvAddr(s, withDev))
 			} else {
-				d = pe.UnsubscribeCall(cliAddr(p, c, withDev), srvAddr(s, withDev))
+				d = pe.UnsubscribeCall(cliAddrMode(p, c, f[4]), srvAddr(s, withDev))
 			}
-			grant = has(*list, regEntry{p, c, s})
+			// a delete that names a client feature of another device addresses no entry of the sender
+			grant = has(*list, regEntry{p, c, s}) && f[4] != "x"
 			if grant {
 				*list, _ = dropWhere(*list, func(e regEntry) bool { return e == regEntry{p, c, s} })
 				expEv[fmt.Sprint(evT, api.ElementChangeRemove)]++
@@ -555,6 +584,7 @@ func (rw *regWorld) apply(op string, judge bool) (viol []string, digest string, 
 			m.binds, n = dropWhere(m.binds, func(e regEntry) bool { return e.peer == p })
 			expEv[fmt.Sprint(api.EventTypeBindingChange, api.ElementChangeRemove)] += n
 			m.conn[p] = false
+			m.undisc[p] = false
 			for k := range m.lsubs {
 				if strings.Split(k, "|")[1] == p {
 					delete(m.lsubs, k)
@@ -586,10 +616,33 @@ func (rw *regWorld) apply(op string, judge bool) (viol []string, digest string, 
 			w.ConnectAndAnnounce(p, "d"+p, []world.EntSpec{clientEntity([]uint{1}), clientEntity([]uint{2})})
 			judge = false // the connection handshake is C06/C01 territory
 		}
+	case "reconn0":
+		// the connection is set up, the peer's detailed discovery has not arrived yet
+		p := f[1]
+		if !m.conn[p] {
+			effect = true
+			m.conn[p] = true
+			m.undisc[p] = true
+			m.ents[p] = map[uint]bool{0: true}
+			w.Connect(p, "d"+p)
+			judge = false
+		}
+	case "ann":
+		// the discovery reply of a peer connected with reconn0
+		p := f[1]
+		if m.conn[p] && m.undisc[p] {
+			effect = true
+			m.undisc[p] = false
+			m.ents[p] = map[uint]bool{0: true, 1: true, 2: true}
+			pe := w.Peers[p]
+			pe.Ents = []world.EntSpec{clientEntity([]uint{1}), clientEntity([]uint{2})}
+			pe.Deliver(pe.DiscoveryReply(pe.Ents))
+			judge = false
+		}
 	case "entrm", "entadd":
 		p, e := f[1], uint(atoi(f[2]))
 		pe := w.Peers[p]
-		if !m.conn[p] {
+		if !m.conn[p] || m.undisc[p] {
 			break
 		}
 		st := model.NetworkManagementStateChangeTypeRemoved
@@ -778,13 +831,13 @@ func (rw *regWorld) prepare(op string) func() {
 		}
 		return func() { pe.Deliver(d) }
 	case "unsub", "unbind":
-		p, c, s, withDev := f[1], f[2], f[3], f[4] == "d"
+		p, c, s, withDev := f[1], f[2], f[3], f[4] != "n"
 		pe := w.Peers[p]
 		var d model.DatagramType
 		if f[0] == "unbind" {
-			d = pe.UnbindCall(cliAddr(p, c, withDev), srvAddr(s, withDev))
+			d = pe.UnbindCall(cliAddrMode(p, c, f[4]), srvAddr(s, withDev))
 		} else {
-			d = pe.UnsubscribeCall(cliAddr(p, c, withDev), srvAddr(s, withDev))
+			d = pe.UnsubscribeCall(cliAddrMode(p, c, f[4]), srvAddr(s, withDev))
 		}
 		return func() { pe.Deliver(d) }
 	case "write":
